@@ -242,14 +242,14 @@ def raiseSites4 : List Site := [
   ⟨860, 861, 97, 3, [293], true, true, [29, 164], false⟩,  -- 225 Operators/Conditional.py:97
   ⟨860, 861, 99, 3, [295], true, true, [164, 114], false⟩,  -- 226 Operators/Conditional.py:99
   ⟨860, 861, 105, 3, [297], true, true, [164], false⟩,  -- 227 Operators/Conditional.py:105
-  ⟨860, 862, 190, 3, [321], true, true, [164], false⟩,  -- 228 Operators/Conditional.py:190
-  ⟨860, 862, 199, 3, [324], true, true, [29, 164], false⟩,  -- 229 Operators/Conditional.py:199
-  ⟨860, 862, 201, 3, [326], true, true, [164], false⟩,  -- 230 Operators/Conditional.py:201
-  ⟨860, 862, 221, 3, [328], true, true, [29, 164], false⟩,  -- 231 Operators/Conditional.py:221
-  ⟨860, 862, 243, 3, [170], true, true, [164], false⟩,  -- 232 Operators/Conditional.py:243
-  ⟨860, 862, 245, 3, [331], true, true, [29, 164], false⟩,  -- 233 Operators/Conditional.py:245
-  ⟨860, 862, 248, 3, [333], true, true, [164], false⟩,  -- 234 Operators/Conditional.py:248
-  ⟨860, 862, 254, 3, [335], true, true, [164], false⟩,  -- 235 Operators/Conditional.py:254
+  ⟨860, 862, 196, 3, [321], true, true, [164], false⟩,  -- 228 Operators/Conditional.py:196
+  ⟨860, 862, 205, 3, [324], true, true, [29, 164], false⟩,  -- 229 Operators/Conditional.py:205
+  ⟨860, 862, 207, 3, [326], true, true, [164], false⟩,  -- 230 Operators/Conditional.py:207
+  ⟨860, 862, 227, 3, [328], true, true, [29, 164], false⟩,  -- 231 Operators/Conditional.py:227
+  ⟨860, 862, 249, 3, [170], true, true, [164], false⟩,  -- 232 Operators/Conditional.py:249
+  ⟨860, 862, 251, 3, [331], true, true, [29, 164], false⟩,  -- 233 Operators/Conditional.py:251
+  ⟨860, 862, 254, 3, [333], true, true, [164], false⟩,  -- 234 Operators/Conditional.py:254
+  ⟨860, 862, 260, 3, [335], true, true, [164], false⟩,  -- 235 Operators/Conditional.py:260
   ⟨863, 864, 27, 3, [180], true, true, [108, 80, 164], false⟩,  -- 236 Operators/General.py:27
   ⟨863, 865, 70, 3, [579], true, true, [534], false⟩,  -- 237 Operators/General.py:70
   ⟨863, 866, 100, 3, [202], true, true, [201], false⟩,  -- 238 Operators/General.py:100
